@@ -51,6 +51,7 @@ class Cfg:
     exclude_leaves: frozenset = frozenset()  # leaf kinds not to generate (e.g. C19's twin cannot preserve substring tests)
     use_k: bool = True                       # whether the unique key k may be used as an int term
     clones: Tuple[int, int] = (1, 8)         # probability (num, den) of making some records value-equal EntV clones
+    kw_vars: Tuple[int, int] = (0, 1)        # probability that a variable is declared as T(From(d), field=const)
 
 
 def chance(draw, num: int, den: int) -> bool:
@@ -361,6 +362,14 @@ def query_case(draw, cfg: Cfg):
             if draw(st.booleans()):
                 d.insert(draw(st.integers(0, len(d))), base + draw(st.integers(0, 1)))
     vars_ = [{"dom": var_dom[v], "decl": draw(st.sampled_from(cfg.decls)), "type": "Ent"} for v in range(nvars)]
+    for vd in vars_:
+        # predicate-form declaration with a field constraint: T(From(d), field=const)
+        if chance(draw, cfg.kw_vars[0], cfg.kw_vars[1]):
+            P_ = PROFILES[cfg.profile]
+            f = draw(st.sampled_from(["a", "b", "s", "o"] if cfg.allow_any else ["a", "b", "s"]))
+            v = draw(st.sampled_from(P_["ints"] if f in ("a", "b") else (P_["strs"] if f == "s" else P_["anys"])))
+            vd["decl"] = "from"
+            vd["kw"] = [[f, enc(v)]]
     if cfg.allow_empty_cond and chance(draw, 1, 15):
         cond = None
     else:
